@@ -152,4 +152,76 @@ class Pipeline(Component):
         ctx.label("excluded-pairs", bool(excluded))
 
 
-COMPONENTS = [Pipeline()]
+class E1Pipe(Component):
+    """Join vs the four safe first stages + matcher on the E1 size-sweep tables: every pair
+    sits exactly at / next to the threshold, with sizes up to N."""
+    name = "e1pipe"
+    kind = "enum"
+    exhaustive = True
+    rule = "every E1 batch (sizes <= N) x four first-stage filters"
+
+    def bounds(self, tier):
+        return {"N": 26 if tier == "quick" else 52, "measures": ["JACCARD", "COSINE", "DICE"],
+                "stage1": ["size", "prefix", "position", "overlap"]}
+
+    def shards(self, tier):
+        return 16
+
+    def budget_s(self, tier):
+        return 200 if tier == "quick" else 3000
+
+    def cases(self, tier):
+        from .. import enumgen
+        return enumgen.e1_cases(self.bounds(tier)["N"], chunk=120)
+
+    def check(self, case, ctx):
+        from .. import enumgen
+        from ..env import JOINS
+        triples = [tuple(t) for t in case["triples"]]
+        L, R = enumgen.e1_tables(triples)
+        m, t = case["measure"], case["threshold"]
+        jdf = ctx.lib(JOINS[m], L, R, "id", "id", "v", "v", mk_tok(enumgen.WS), t, ">=", True,
+                      False, None, None, "l_", "r_", True, 1, False)
+        if jdf is None:
+            return
+        excluded = set((i, i) for i, (n, mm, o) in enumerate(triples)
+                       if oracle.classify(m, n, mm, o, t, ">=") == "straddle")
+        jset = set(zip(jdf["l_id"].tolist(), jdf["r_id"].tolist())) - excluded
+        for stage in ("size", "prefix", "position", "overlap"):
+            tok = mk_tok(enumgen.WS)
+            fcfg = {"type": "overlap", "threshold": 1} if stage == "overlap" else \
+                {"type": stage, "measure": m, "threshold": t}
+            f = calls.make_filter(ctx, fcfg, tok)
+            if f is None:
+                continue
+            cand = ctx.lib(f.filter_tables, L, R, "id", "id", "v", "v", show_progress=False)
+            if cand is None:
+                continue
+            pdf = ctx.lib(ssj.apply_matcher, cand, "l_id", "r_id", L, R, "id", "id", "v", "v",
+                          mk_tok(enumgen.WS), simfns.get(MEASURE_FN[m]), t, ">=", False, None,
+                          None, "l_", "r_", True, 1, False)
+            if pdf is None:
+                continue
+            pset = set() if len(pdf) == 0 else \
+                set(zip(pdf["l_id"].tolist(), pdf["r_id"].tolist())) - excluded
+            if pset != jset:
+                ctx.violation("pipeline=%s,kind=pair-sets-differ" % m,
+                              "%s join vs %s.filter_tables+apply_matcher threshold=%r on E1 sizes: "
+                              "only in join %r, only in pipeline %r (sizes/overlap by instance: %r)"
+                              % (m, stage, t, sorted(jset - pset)[:3], sorted(pset - jset)[:3],
+                                 [triples[i] for i, _ in sorted(jset ^ pset)[:3]]))
+        ctx.nontrivial(len(jset) > 0)
+        ctx.label("e1pipe:" + m)
+
+    def shrink_case(self, case, ctx):
+        for tr in case["triples"]:
+            c = dict(case)
+            c["triples"] = [tr]
+            try:
+                self.check(c, ctx)
+            except Exception:
+                return c
+        return case
+
+
+COMPONENTS = [Pipeline(), E1Pipe()]
